@@ -257,7 +257,9 @@ pub fn run_c01(ctx: &mut Ctx) {
     }
     if miri {
         // small workload for the UB interpreter: G-wide <= 2 (sharded) + a few random cases, every entry point
-        let cfg = StreamCfg { wide_len: 2, narrow_len: 0, langid_len: 0, n_struct: if quick { 32 } else { 640 }, n_mutate: if quick { 32 } else { 640 }, corpus: false };
+        let cfg = StreamCfg { wide_len: 2, narrow_len: 0, langid_len: 0, n_struct: if quick { 32 } else { 400 }, n_mutate: if quick { 32 } else { 400 }, corpus: false };
+        // the iterator entry points (eight parser calls per input) are interpreted on every fourth input only
+        let without_iter: Vec<usize> = all.iter().copied().filter(|e| *e != 21).collect();
         // in the quick tier only every 4th G-wide case is interpreted
         let mut k = 0u64;
         byte_stream(ctx, &cfg, &mut |ctx, b, src| {
@@ -266,7 +268,7 @@ pub fn run_c01(ctx: &mut Ctx) {
                 return;
             }
             ctx.count(src.name());
-            drive(ctx, &mut tally, &all, b, &mut tagged);
+            drive(ctx, &mut tally, if k % 4 == 0 { &all } else { &without_iter }, b, &mut tagged);
         });
     } else {
         // (1) every entry point: G-wide <= 3, langid alphabet <= 3, random / mutated / corpus
